@@ -167,8 +167,8 @@ pub fn catalogue(tier: Tier) -> Vec<ArchSpec> {
     // attributes written by somebody else
     push("extattr", 0, false, Attrs::ExtMd5Only, false, false, false, false, "plain");
     push("extattr", 0, false, Attrs::ExtFullZlib, false, false, false, false, "zlib");
+    push("extattr", 1, false, Attrs::ExtMd5Only, false, false, false, false, "enc");
     if tier == Tier::Thorough {
-        push("extattr", 1, false, Attrs::ExtMd5Only, false, false, false, false, "enc");
         push("extattr", 3, false, Attrs::ExtFullZlib, false, false, false, false, "plain");
     }
     // listfile present (also a stored, protected file)
